@@ -14,7 +14,12 @@ import (
 	"verifharness/internal/pool"
 )
 
-const repoDir = "/repo"
+var repoDir = func() string {
+	if r := os.Getenv("REPO"); r != "" {
+		return r
+	}
+	return "/repo"
+}()
 
 func init() {
 	for _, p := range []string{"C06", "C07", "C08", "C11", "C15", "C16"} {
